@@ -235,6 +235,11 @@ class FnSpec:
         actual = self.bind_args(eng, args, kwargs, node, bind)
         ctx = Ctx(eng, actual)
         tag = "call:%s" % self.qualname
+        g = getattr(eng.st, "globals", None)
+        if g is not None:
+            # ghost state (file system ...) of the caller is the callee's: its clauses read it through ctx.globals
+            ctx.globals = g
+            ctx.old_globals = {k: (v.snapshot() if hasattr(v, "snapshot") else v) for k, v in g.items()}
         for name, c in self._clauses(self.requires(ctx)):
             eng.oblige("%s:requires:%s" % (tag, name), c, kind="pre", node=node)
         ctx.old = {k: (v.snapshot() if hasattr(v, "snapshot") else v) for k, v in actual.items()}
